@@ -210,6 +210,7 @@ func main() {
 		}
 		if a {
 			accepted++
+			fmt.Printf("ACCEPTED byte mutant %s\n", name)
 		}
 	}
 	fmt.Printf("soak: %d CheckTx in %v, accepted %d, slow %d, panics %d\n", nCheck, time.Since(t), accepted, slow, panics)
